@@ -43,14 +43,19 @@ CmpOps   == {"==", "!=", "<", "<=", ">", ">="}
 LogicOps == {"and", "or"}
 PickOps  == {"maximum", "minimum", "fmax", "fmin", "coalesce"}
 
-Arith(op, x, y) ==
+\* deviations sqlite_mod_truncates / pg_mod_truncates: SQL % and MOD() truncate (the result takes the sign of the dividend);
+\* numpy's mod / remainder / % are floor-mod.  SQLiteModel writes all three spellings as %, PostgreSQLModel writes % and
+\* mod as MOD() and remainder with FLOOR (right)
+TruncMod(op, dev) == \/ ("sqlite_mod_truncates" \in dev /\ op \in {"%", "mod", "remainder"})
+                     \/ ("pg_mod_truncates" \in dev /\ op \in {"%", "mod"})
+Arith(op, x, y, dev) ==
   IF IsNull(x) \/ IsNull(y) THEN NULL
   ELSE CASE op = "+" -> x + y
          [] op = "-" -> x - y
          [] op = "*" -> x * y
          [] op = "/" -> Quot(x, y)
          [] op = "//" -> x \div y
-         [] op \in {"%", "mod", "remainder"} -> x % y
+         [] op \in {"%", "mod", "remainder"} -> IF x < 0 /\ TruncMod(op, dev) THEN 0 - ((0 - x) % y) ELSE x % y
          [] op = "**" -> IPowV(x, y)
 
 \* D14 (null_cmp_false): Pandas/Polars comparisons with a missing operand are False (True for !=)
@@ -139,7 +144,7 @@ EvalE(e, row, dev) ==
     [] e[1] = "u" -> Unary(e[2], EvalE(e[3], row, dev))
     [] e[1] = "b" -> LET x == EvalE(e[3], row, dev)
                          y == EvalE(e[4], row, dev)
-                     IN IF e[2] \in ArithOps THEN Arith(e[2], x, y)
+                     IN IF e[2] \in ArithOps THEN Arith(e[2], x, y, dev)
                         ELSE IF e[2] \in CmpOps THEN Cmp(e[2], x, y, dev)
                         ELSE IF e[2] \in LogicOps THEN Logic(e[2], x, y)
                         ELSE Pick(e[2], x, y, dev)
@@ -159,6 +164,8 @@ EvalE(e, row, dev) ==
                       IN IF IsNull(x) THEN (IF "null_cmp_false" \in dev THEN 0 ELSE NULL)
                          ELSE B(\E i \in 1..Len(e[3]) : e[3][i] = x)
     [] e[1] = "uq" -> QUnary(e[2], EvalE(e[3], row, dev), dev)
+    \* around(x, -1): to the nearest ten, exact halves (5, 15, ...) to the even ten
+    [] e[1] = "around" -> LET x == EvalE(e[2], row, dev) IN IF IsNull(x) THEN NULL ELSE 10 * QUnary("round", Quot(x, 10), dev)
     [] e[1] = "nan" -> IsNan(EvalE(e[2], row, dev), dev)
 
 RECURSIVE DefinedE(_, _)
@@ -172,7 +179,9 @@ DefinedE(e, row) ==
                         IF IsInf(x) \/ IsInf(y) THEN e[2] = "coalesce"
                         ELSE IF IsNull(x) \/ IsNull(y) THEN TRUE
                         ELSE CASE e[2] = "/" -> y # 0
-                               [] e[2] \in {"//", "%", "mod", "remainder"} -> x >= 0 /\ y > 0
+                               [] e[2] \in {"//", "%"} -> x >= 0 /\ y > 0
+                               \* the method spellings are floor-mod (numpy): the sign of the divisor; negative dividends are in
+                               [] e[2] \in {"mod", "remainder"} -> y > 0
                                [] e[2] = "**" -> y >= 0 /\ y <= 3 /\ x >= 0 - 3 /\ x <= 3
                                [] OTHER -> TRUE
     [] e[1] = "t" -> /\ DefinedE(e[3], row) /\ DefinedE(e[4], row) /\ DefinedE(e[5], row)
@@ -180,6 +189,7 @@ DefinedE(e, row) ==
     [] e[1] = "in" -> DefinedE(e[2], row) /\ ~IsInf(EvalE(e[2], row, {}))
     [] e[1] \in {"cat", "trim", "mapv"} -> TRUE
     [] e[1] = "uq" -> DefinedE(e[3], row)
+    [] e[1] = "around" -> DefinedE(e[2], row) /\ ~IsInf(EvalE(e[2], row, {}))
     [] e[1] = "nan" -> DefinedE(e[2], row)
 
 RECURSIVE ColsOfE(_)
@@ -194,6 +204,7 @@ ColsOfE(e) ==
     [] e[1] = "cat" -> ColsOfE(e[2]) \cup ColsOfE(e[3])
     [] e[1] \in {"trim", "mapv", "nan"} -> ColsOfE(e[2])
     [] e[1] = "uq" -> ColsOfE(e[3])
+    [] e[1] = "around" -> ColsOfE(e[2])
 
 \* does evaluating e on row compare a missing operand?  (applicability predicate of D14)
 RECURSIVE NullCmpIn(_, _)
@@ -208,6 +219,7 @@ NullCmpIn(e, row) ==
     [] e[1] = "in" -> NullCmpIn(e[2], row) \/ IsNull(EvalE(e[2], row, {}))
     [] e[1] \in {"cat", "trim", "mapv"} -> FALSE
     [] e[1] = "uq" -> NullCmpIn(e[3], row)
+    [] e[1] = "around" -> NullCmpIn(e[2], row)
     [] e[1] = "nan" -> NullCmpIn(e[2], row)
 
 (***************************************************************************)
